@@ -56,3 +56,19 @@ Definition c_cc_2 := cmd_new "shoot new -type=FOO,Foo" ["FOO"; "Foo"] false fals
 Lemma case_clash_refused :
   run_generate id_oracle (mkpkg hw_cc) [] c_cc_1 = None /\ run_generate id_oracle (mkpkg hw_cc) [] c_cc_2 = None.
 Proof. split; vm_compute; reflexivity. Qed.
+
+(* K_new_selects_generated: after `shoot rest -type=Client`, `shoot new -type=*` also selects the client struct that
+   rest generated (an unexported struct in a generated file): its type list depends on earlier shoot output *)
+Definition hw_ng : list hfile :=
+  [hfile1 "api.go" [HIface {| ri_name := "Client"; ri_headers := [];
+                              ri_methods := [ {| rm_name := "Ping"; rm_hasdoc := true; rm_verb := "GET"; rm_path := "/p"; rm_pparams := [];
+                                                 rm_alias := []; rm_params := []; rm_result := ""; rm_result_ptr := false |} ] |};
+                    strct "Order" [IField (fld "id" "int")]]].
+Definition c_rest_client : cmd :=
+  {| c_sub := CRest; c_line := "shoot rest -type=Client"; c_types := ["Client"]; c_star := false; c_file := ""; c_sepflag := false;
+     c_getset := false; c_json := false; c_opt := false; c_ejson := false; c_etext := false; c_toonly := false; c_fromonly := false |}.
+Definition rest_out_ng : gfiles := match run_generate id_oracle (mkpkg hw_ng) [] c_rest_client with Some fs => fs | None => [] end.
+Lemma new_selects_generated :
+  list_types_of CNew (mk_view hw_ng [] []) = ["Order"] /\
+  list_types_of CNew (mk_view hw_ng rest_out_ng []) = ["Order"; "client"].
+Proof. split; vm_compute; reflexivity. Qed.
